@@ -1255,7 +1255,7 @@ theorem closed_sharding_of_result {w w' : World} {allow : Bool} (hd : devLocalW 
     ∀ n, w'[i]? = some (.node n) → ∀ c ∈ n.dev, ∀ sp ∈ c.specs, ∀ v, sp.value = some v →
       (some v ∈ n.inputs ∨ v ∈ n.outputs) ∧ (allow = false → w.length ≤ v ∧ v < w'.length) := by
   intro n hn c hc sp hsp v hv
-  obtain ⟨o, _, _, _, _, f, f2⟩ := hres.cells i _ hin.1 hn
+  obtain ⟨o, _, _, _, _, f, f2, _⟩ := hres.cells i _ hin.1 hn
   have hl := f2 hd c hc sp hsp v hv
   refine ⟨hl, fun ha => ?_⟩
   rcases hl with h1 | h1
@@ -1289,6 +1289,34 @@ theorem C13_closed_sharding_model {w w' : World} {fuel : Nat} {m m' : Nat}
   intro n hn c hc sp hsp v hv
   have := closed_sharding_of_result hd hres (owned_new hres (hroot m' rfl) hi) n hn c hc sp hsp v hv
   exact ⟨this.1, this.2 rfl⟩
+
+/-- **C13_closed_sharding_any** (`Graph.clone()` / `GraphView.clone()` with
+    `allow_outer_scope_values=False`, since the fixes of D340 / D341).  WITHOUT any hypothesis on
+    where the source's sharding specs point: every sharding spec of every node of the clone, at any
+    depth, targets an object of the clone.  A spec on an input or output of its node follows the
+    node's own input / output correspondence; a spec on any other value follows the cloner's value
+    map; a spec on a value outside the cloned region makes the clone raise (`checkSpecs`), like an
+    outer-scope node input — so a returned clone never refers into the original through a device
+    annotation.  (With `allow_outer_scope_values=True` such a spec is kept: an allowed captured
+    outer value.) -/
+theorem C13_closed_sharding_any {w w' : World} {fuel : Nat} {g g' : Nat}
+    (h : run (graphClone fuel false g) w = (.ok g', w')) (i : Nat) (hi : Owned w' g' i) :
+    ∀ n, w'[i]? = some (.node n) → ∀ c ∈ n.dev, ∀ sp ∈ c.specs, ∀ v, sp.value = some v →
+      w.length ≤ v ∧ v < w'.length := by
+  obtain ⟨hres, hroot⟩ := CloneResult.of_good (fun s hI => graphClone_good fuel g hI) h
+  intro n hn c hc sp hsp v hv
+  obtain ⟨_, _, _, _, _, _, _, f3⟩ := hres.cells i _ (owned_new hres (hroot g' rfl) hi).1 hn
+  exact f3 rfl c hc sp hsp v hv
+
+/-- **C13_closed_sharding_any_model** (`Model.clone`, hence `functionalize`; functions included). -/
+theorem C13_closed_sharding_any_model {w w' : World} {fuel : Nat} {m m' : Nat}
+    (h : run (modelClone fuel m) w = (.ok m', w')) (i : Nat) (hi : Owned w' m' i) :
+    ∀ n, w'[i]? = some (.node n) → ∀ c ∈ n.dev, ∀ sp ∈ c.specs, ∀ v, sp.value = some v →
+      w.length ≤ v ∧ v < w'.length := by
+  obtain ⟨hres, hroot⟩ := CloneResult.of_good (fun s hI => modelClone_good fuel m hI) h
+  intro n hn c hc sp hsp v hv
+  obtain ⟨_, _, _, _, _, _, _, f3⟩ := hres.cells i _ (owned_new hres (hroot m' rfl) hi).1 hn
+  exact f3 rfl c hc sp hsp v hv
 
 /-- a node with a sharding spec on its input: the hypothesis of C13_closed_sharding holds and the
     spec of the cloned node targets the cloned input -/
@@ -1453,5 +1481,35 @@ example : verdictKind (cloneVerdict 4 true exCapture 0) = "ok" := by decide +ker
 example : verdictKind (cloneVerdict 4 false exCapture 0) = "raised: outer-scope value" := by decide +kernel
 example : verdictKind (cloneVerdict 4 true exUnsorted 0) =
     "raised: value defined by a later node of the graph being cloned" := by decide +kernel
+
+/-! D340 / D341 (fixed): node `b` carries a spec on `x`, which is neither its input nor its output.
+Cloning the graph remaps it to the clone's `x`; cloning a view that does not contain `x` raises. -/
+def exNonLocal : World := [
+  .graph { name := some "g", inputs := [3], outputs := [15], nodes := [6, 12], props := 1, mstore := 2 },
+  .dict {}, .dict {},
+  .val { name := some "x", graph := some 0, isIn := true, uses := [(6, 0)], props := 4, mstore := 5 },
+  .dict {}, .dict {},
+  .node { name := some "a", opType := "A", inputs := [some 3], outputs := [9], graph := some 0,
+          props := 7, mstore := 8 },
+  .dict {}, .dict {},
+  .val { name := some "va", producer := some 6, index := some 0, uses := [(12, 0)], props := 10, mstore := 11 },
+  .dict {}, .dict {},
+  .node { name := some "b", opType := "B", inputs := [some 9], outputs := [15], graph := some 0,
+          dev := [{ cfg := 0, specs := [{ value := some 3, payload := 0 }] }], props := 13, mstore := 14 },
+  .dict {}, .dict {},
+  .val { name := some "vb", producer := some 12, index := some 0, graph := some 0, isOut := true,
+         props := 16, mstore := 17 },
+  .dict {}, .dict {},
+  -- a view of node `b` alone: inputs [va], outputs [vb]
+  .graph { name := some "v", inputs := [9], outputs := [15], nodes := [12], props := 19, mstore := 20, view := true },
+  .dict {}, .dict {} ]
+
+example : devLocalW exNonLocal = false := by decide +kernel
+example : isOk (run (graphClone 4 false 0) exNonLocal).1 = true ∧
+    devOfNodesNamed (run (graphClone 4 false 0) exNonLocal).2 "b" = [[some 3], [some 23]] := by
+  decide +kernel
+example : verdictKind (cloneVerdict 4 false exNonLocal 18) =
+    "raised: sharding spec targets an outer-scope value" := by decide +kernel
+example : verdictKind (cloneVerdict 4 true exNonLocal 18) = "ok" := by decide +kernel
 
 end IrVerif.Clone
